@@ -15,7 +15,7 @@ FUNCTIONS = [Cluster.is_idle, Buffer.is_empty, Scheduler.is_idle, Telescope.is_i
 META = {
     'bounds': {'C19.cluster': '3 machines, every pool vector (5^3) by prelude, then 0..4 timesteps of the real kernel, then an ingest provisioning stepped event by event',
                'C19.buffer': 'capacities and free space unbounded ints; plus capacities 10^3..10^18 holding 0..2 units (case-split)', 'C19.scheduler': 'queue length 0..2',
-               'C19.telescope': '2 observations each waiting/running/finished through begin/finish_observation, demands unbounded >= 0'},
+               'C19.telescope': '2 observations each waiting/running/finished through begin/finish_observation, demands and the array total of the telescope unbounded >= 0 and independent (an observation may demand more arrays than exist)'},
     'outside_bounds': ['more than 3 machines / 2 observations at unit level (SIMH covers trajectories)'],
     'stubs': ['FakeCfg instead of JSON config', 'Simulation object built with __new__ around the four real actors (no file I/O)'],
     'assumptions': [],
@@ -63,9 +63,9 @@ def cluster_q(p0: int, p1: int, p2: int, adv: int) -> bool:
     return wit.verdict(t)
 
 
-def mk_telescope(env, st1, st2, d1, d2, sched=None):
+def mk_telescope(env, st1, st2, d1, d2, sched=None, ta=None):
     obs = [Observation('o1', 0, 2, d1, 'wf', 1), Observation('o2', 0, 2, d2, 'wf', 1)]
-    tel = Telescope(env, FakeCfg(instrument=(d1 + d2 + 1, {'o1': {'ingest_demand': 1}, 'o2': {'ingest_demand': 1}}, obs, 2)), None, sched)
+    tel = Telescope(env, FakeCfg(instrument=(d1 + d2 + 1 if ta is None else ta, {'o1': {'ingest_demand': 1}, 'o2': {'ingest_demand': 1}}, obs, 2)), None, sched)
     for o, st in zip(obs, (st1, st2)):
         if st >= 1:
             o.status = tel.begin_observation(o)
@@ -74,7 +74,7 @@ def mk_telescope(env, st1, st2, d1, d2, sched=None):
     return tel, obs
 
 
-def rest_tag(hc, hf, cc, cf, qlen, st1, st2, d1, d2, p0, p1):
+def rest_tag(hc, hf, cc, cf, qlen, st1, st2, d1, d2, p0, p1, ta=None):
     wit.begin()
     env, c = cluster_in_state([p0, p1], busy_dur=2)
     hot, cold = HotBuffer(hc, 1), ColdBuffer(cc, 1)
@@ -83,7 +83,7 @@ def rest_tag(hc, hf, cc, cf, qlen, st1, st2, d1, d2, p0, p1):
     sch = Scheduler(env, buf, c, None)
     for i in range(qlen):
         sch.observation_queue.append(Obs(f'q{i}', 1))
-    tel, obs = mk_telescope(env, st1, st2, d1, d2, sch)
+    tel, obs = mk_telescope(env, st1, st2, d1, d2, sch, ta)
     b_truth = (hf == hc and cf == cc)
     if buf.is_empty() != b_truth:
         return 'C19/buffer-is-empty-wrong'
@@ -104,15 +104,15 @@ def rest_tag(hc, hf, cc, cf, qlen, st1, st2, d1, d2, p0, p1):
     return None
 
 
-def rest(hc: int, hf: int, cc: int, cf: int, qlen: int, st1: int, st2: int, d1: int, d2: int, p0: int, p1: int) -> bool:
+def rest(hc: int, hf: int, cc: int, cf: int, qlen: int, st1: int, st2: int, d1: int, d2: int, p0: int, p1: int, ta: int) -> bool:
     """
     pre: 0 <= hf <= hc and 0 <= cf <= cc and 0 <= qlen <= 2
     pre: 0 <= st1 <= 2 and 0 <= st2 <= 2 and d1 >= 0 and d2 >= 0
-    pre: 0 <= p0 <= 2 and 0 <= p1 <= 2
+    pre: 0 <= p0 <= 2 and 0 <= p1 <= 2 and ta >= 0
     post: _
     """
-    t = rest_tag(hc, hf, cc, cf, qlen, st1, st2, d1, d2, p0, p1)
-    wit.note(t, hc=hc, hf=hf, cc=cc, cf=cf, qlen=qlen, st1=st1, st2=st2, d1=d1, d2=d2, p0=p0, p1=p1)
+    t = rest_tag(hc, hf, cc, cf, qlen, st1, st2, d1, d2, p0, p1, ta)
+    wit.note(t, ta=ta, hc=hc, hf=hf, cc=cc, cf=cf, qlen=qlen, st1=st1, st2=st2, d1=d1, d2=d2, p0=p0, p1=p1)
     return wit.verdict(t)
 
 
